@@ -507,3 +507,17 @@ def maybe(present, value):
     if isinstance(value, Maybe):
         return Maybe(z3.And(present, value.present), value.value)
     return Maybe(present, value)
+
+
+class AbsObj:
+    """Abstract collaborator built by a contract: attributes are engine values, methods are
+    summaries `fn(I, args, kwargs)`.  `cls` (a real class) answers isinstance."""
+
+    def __init__(self, tag, attrs=None, methods=None, cls=None):
+        self.tag = tag
+        self.attrs = dict(attrs or {})
+        self.methods = dict(methods or {})
+        self.cls = cls
+
+    def __repr__(self):
+        return f"AbsObj<{self.tag}>"
